@@ -33,7 +33,7 @@ def _run_shard(path, timeout):
 
 
 def eval_cases(name, imports, cases, shard=300, jobs=16, timeout=600, prelude=""):
-    """cases: list of (model_term, impl_outcome_term) strings, both of type `res pyval`.
+    """cases: list of Gallina terms of type `res pyval * res pyval` (model or oracle outcome, implementation outcome).
     Returns the list of indices whose model outcome does not match."""
     d = os.path.join(BUILD, "cases", name)
     shutil.rmtree(d, ignore_errors=True)
@@ -46,7 +46,7 @@ def eval_cases(name, imports, cases, shard=300, jobs=16, timeout=600, prelude=""
             fh.write(HEADER.format(imports=imports))
             fh.write(prelude)
             fh.write("Definition cases : list (res pyval * res pyval) := [\n")
-            fh.write(";\n".join(f"({m}, {x})" for m, x in chunk))
+            fh.write(";\n".join(chunk))
             fh.write("\n].\nEval vm_compute in (mismatches cases).\n")
         paths.append((si, path))
     bad = []
